@@ -116,6 +116,14 @@ def stepC07 : List String → String
     | some root, some txs =>
       sanityVerdict pre size special root txs
     | _, _ => "bad-op"
+  | "pool" :: _good :: _mut :: pre :: size :: special :: root :: txs =>
+    -- BlockPool: the first (accepted) block is pooled; the block+confirm message is checked by
+    -- CheckBlockSanity before it may replace the pooled block, so the pool always holds a bound block
+    match hexBytes? root, parseTxs txs with
+    | some root, some txs =>
+      let v := sanityVerdict pre size special root txs
+      s!"s1=ok s2={v.replace " " ":"} bound=1"
+    | _, _ => "bad-op"
   | "orphan" :: depth :: _k :: _mut :: pre :: size :: special :: root :: txs =>
     -- the block is delivered while its parent is unknown: ProcessBlock runs CheckBlockSanity BEFORE
     -- the orphan handling, so a block that fails it never reaches the orphan pool; an accepted one
